@@ -5,8 +5,9 @@ import re
 from vlib import Hit, Result, diff_lines, sh
 
 ASSUMPTIONS = [
-    'wrapped senders / callables do not throw from their copy or move constructors (exception safety of '
-    'basic_function::assign / op_assign under throwing constructors is outside the model and the harness)',
+    'main theorems: wrapped senders / callables do not throw from their copy or move constructors; the one modelled '
+    'exception (copy assignment of function with a throwing copy constructor, FUNX cases) is the recorded finding F9b; '
+    'other throwing-constructor paths (assign(F const&), copy construction, any_sender clone) are not modelled',
     'wrapped callables are not address-sensitive: function_base relocates inline objects with memcpy / '
     'std::swap of the raw buffer by design; the ledger identity travels inside the object',
     'single-threaded use of a wrapper object (the wrappers are not thread-safe by contract)',
@@ -73,6 +74,8 @@ def spec_monitor(kind, f, ops, steps):
         elif name == 'cl':
             v = sl[a[0]]
             exp = 'TB' if v is None else completion(v)
+        elif name == 'cx':
+            return None    # the wrapper's state after a throwing copy constructor is the finding itself
         elif name == 'iv':
             v = sl[a[0]]
             if v is None:
@@ -90,7 +93,7 @@ def spec_monitor(kind, f, ops, steps):
     return None
 
 
-EV = re.compile(r'^([CKMDXG])(\d+)?(?:<(\d+))?$')
+EV = re.compile(r'^([CKMDG])(\d+)?(?:<(\d+))?$')
 
 
 def ledger_monitor(steps):
@@ -110,8 +113,6 @@ def ledger_monitor(steps):
             if k == 'G':
                 return 'destroy_garbage', 'step %d: a destructor ran on memory that holds no object' % t
             i = int(i)
-            if k == 'X':
-                return 'double_destroy', 'step %d: object %d destroyed twice' % (t, i)
             if k in 'CKM':
                 if i != nxt or i in state:
                     return 'identity', 'step %d: construction of object %d out of sequence' % (t, i)
@@ -258,12 +259,13 @@ def run(ctx):
         except Exception as e:  # fall through to the normal run
             r.notes.append('replay file not usable: %r' % e)
     if ctx.tier == 'quick':
-        plan = [(h0, '', ctx.seed, 12000, 'sf'), (h1, ':sbo', ctx.seed, 8000, 's')]
+        plan = [(h0, '', ctx.seed, 12000, 'sf'), (h1, ':sbo', ctx.seed, 8000, 's'), (h0, '', ctx.seed, 40, 'x')]
     else:
         plan = []
         for k in range(5):
             plan.append((h0, '', ctx.seed + 100 * k, 60000, 'sf'))
             plan.append((h1, ':sbo', ctx.seed + 100 * k, 40000, 's'))
+        plan.append((h0, '', ctx.seed, 400, 'x'))
     for (h, tag, sd, n, kinds) in plan:
         run_build(ctx, r, h, drv, tag, sd, n, kinds)
     r.extra['builds'] = ['default', '-DPIKA_DETAIL_ENABLE_ANY_SENDER_SBO (any_sender.cpp compiled into the harness with the macro)']
